@@ -202,23 +202,29 @@ Proof.
   intros Ht Hr Hdep. rewrite <- (matrix_decl src tgt Ht Hdep). unfold decl_ok. rewrite Hr. reflexivity.
 Qed.
 
-(** a sub-entity's input port: only the python level trial assignment; no cast is ever emitted in a port map *)
-Definition dep_port_in (src tgt : cty) : bool :=
-  match src, tgt with
-  | CInteger, CBit => true                                     (* ACCEPTED (and emitted ill-typed) *)
-  | _, _ => negb (is_runtime src) && doc_ok src tgt || dep_stmt src tgt
-  end.
+(** sub-entity ports (patched tree): identical types only; every documented widening is over-rejected *)
+Definition dep_port (src tgt : cty) : bool := negb (cty_eqb src tgt) && doc_ok src tgt.
 
-Theorem matrix_port_in src tgt :
-  is_target tgt = true -> dep_port_in src tgt = false -> is_runtime src && trial src tgt = doc_ok src tgt.
+Lemma cty_eqb_eq a b : cty_eqb a b = true -> a = b.
 Proof.
-  intros Ht Hdep.
-  destruct src as [| |n|n|n| |z|l b| |]; destruct tgt as [| |m|m|m| |z'|l' b'| |];
-    cbn [is_target dep_port_in dep_stmt is_runtime negb andb orb] in *; try discriminate;
-    cbn [trial doc_ok]; try reflexivity;
-    try (apply orb_false_elim in Hdep; destruct Hdep as [Hdep _]; cbn [doc_ok] in Hdep; rewrite Hdep; reflexivity);
-    try (apply negb_false_iff in Hdep; rewrite Hdep; reflexivity);
-    try (symmetry; exact Hdep).
+  destruct a, b; cbn [cty_eqb]; try discriminate; try reflexivity; intros H;
+    try (apply N.eqb_eq in H; subst; reflexivity).
+  - apply Z.eqb_eq in H; subst; reflexivity.
+  - apply andb_prop in H. destruct H as [H1 H2]. apply N.eqb_eq in H1. apply Z.eqb_eq in H2. subst. reflexivity.
+Qed.
+
+Lemma trial_self t : is_target t = true -> trial t t = true /\ doc_ok t t = true.
+Proof. destruct t; try discriminate; intros _; cbn [trial doc_ok]; rewrite ?N.eqb_refl, ?N.leb_refl; split; reflexivity. Qed.
+
+Theorem matrix_port src tgt :
+  is_target tgt = true -> dep_port src tgt = false ->
+  is_runtime src && trial src tgt && cty_eqb src tgt = doc_ok src tgt /\
+  is_runtime src && trial src tgt && trial tgt src && cty_eqb src tgt = doc_ok src tgt.
+Proof.
+  intros Ht Hdep. unfold dep_port in Hdep. destruct (cty_eqb src tgt) eqn:E.
+  - apply cty_eqb_eq in E. subst. destruct (trial_self tgt Ht) as [T D]. rewrite T, D.
+    assert (R : is_runtime tgt = true) by (destruct tgt; try discriminate Ht; reflexivity). rewrite R. split; reflexivity.
+  - cbn [negb andb] in Hdep. rewrite Hdep, !andb_false_r. split; reflexivity.
 Qed.
 
 (** if-expression / function-return merges: the new value first, or second *)
@@ -322,7 +328,6 @@ Definition applies (f : form) (src tgt : cty) : bool :=
   | FSlice _ => match vec_of tgt with Some _ => true | None => false end
   | FElem _ => match tgt with CBit => true | _ => false end
   | FDeclStatic => negb (is_runtime src)
-  | FPortOut => is_runtime src
   | _ => true
   end.
 
@@ -332,13 +337,7 @@ Definition departs (f : form) (src tgt : cty) : bool :=
   | FNextOp | FNextAttr | FValueOp | FValueAttr | FPushOp | FPushAttr | FElem _ => dep_stmt src tgt
   | FSlice k => dep_stmt src tgt || negb (view_ok src tgt k) && doc_ok src tgt   (* constant into a U view of an S root *)
   | FDeclSig | FDeclVar | FDeclStatic => dep_decl src tgt
-  | FPortIn => dep_port_in src tgt
-  | FPortOut =>                                  (* the check runs in the opposite direction: only identities agree *)
-      match src, tgt with
-      | CBit, CBit | CBool, CBool | CInteger, CInteger => false
-      | CBV n, CBV m | CU n, CU m | CS n, CS m => negb (n =? m)%N
-      | _, _ => true
-      end
+  | FPortIn | FPortOut => dep_port src tgt           (* identical types only: widening is rejected although documented *)
   | FIfA | FRetA => dep_merge_a src tgt
   | FIfB | FRetB => dep_merge_b src tgt
   end.
@@ -361,9 +360,8 @@ Proof.
   - apply matrix_decl; assumption.
   - apply matrix_decl; assumption.
   - apply matrix_static; [exact Ht|apply negb_true_iff; exact Ha|exact Hd].
-  - apply matrix_port_in; assumption.
-  - (* port_out *) destruct src, tgt; try discriminate Hd; cbn [trial doc_ok]; try reflexivity;
-      apply negb_false_iff in Hd; apply N.eqb_eq in Hd; subst; rewrite ?N.eqb_refl, ?N.leb_refl; reflexivity.
+  - apply (matrix_port src tgt Ht Hd).
+  - apply (matrix_port src tgt Ht Hd).
   - apply matrix_merge_a; assumption.
   - apply matrix_merge_b; assumption.
   - apply matrix_merge_a; assumption.
@@ -415,15 +413,18 @@ Lemma refuted_decl_reinterprets :
   assign_ok FDeclVar (CU 4) (CS 4) = true /\ doc_ok (CU 4) (CS 4) = false.
 Proof. vm_compute. repeat split. Qed.
 
-(** an output port of a sub-entity: the check is made towards the port, so narrowing is accepted and widening rejected *)
-Lemma refuted_port_out_reversed :
-  assign_ok FPortOut (CU 8) (CU 4) = true /\ doc_ok (CU 8) (CU 4) = false /\
-  assign_ok FPortOut (CU 4) (CU 8) = false /\ doc_ok (CU 4) (CU 8) = true /\
-  assign_ok FPortOut (CS 4) (CU 8) = false /\ assign_ok FPortOut (CU 2) (CS 4) = false /\ assign_ok FPortOut (CS 4) (CU 2) = true.
+(** sub-entity ports after efe8b9f: nothing undocumented is accepted any more; widening is over-rejected *)
+Lemma port_forms_patched :
+  assign_ok FPortOut (CU 8) (CU 4) = false /\ assign_ok FPortIn CInteger CBit = false /\
+  assign_ok FPortOut (CU 4) (CU 8) = false /\ assign_ok FPortIn (CU 2) (CU 3) = false /\ doc_ok (CU 2) (CU 3) = true /\
+  assign_ok FPortIn (CU 3) (CU 3) = true /\ assign_ok FPortOut (CS 3) (CS 3) = true.
 Proof. vm_compute. repeat split. Qed.
 
-Lemma refuted_port_in_untyped : assign_ok FPortIn CInteger CBit = true /\ doc_ok CInteger CBit = false.
-Proof. vm_compute. split; reflexivity. Qed.
+Theorem port_forms_sound f src tgt :
+  (f = FPortIn \/ f = FPortOut) -> assign_ok f src tgt = true -> src = tgt.
+Proof.
+  intros [-> | ->]; cbn [assign_ok]; intros H; apply andb_prop in H; destruct H as [_ H]; apply cty_eqb_eq; exact H.
+Qed.
 
 Lemma refuted_truthiness :
   assign_ok FNextOp (CU 4) CBool = true /\ doc_ok (CU 4) CBool = false /\
@@ -434,7 +435,7 @@ Proof. vm_compute. repeat split. Qed.
 Lemma over_rejected :
   assign_ok FIfB (CU 2) CInteger = false /\ assign_ok FIfA (CU 2) CInteger = true /\ doc_ok (CU 2) CInteger = true /\
   assign_ok (FSlice KS) CNull (CU 2) = false /\ doc_ok CNull (CU 2) = true /\
-  assign_ok FPortIn CNull (CU 2) = false.
+  assign_ok FPortIn CNull (CU 2) = false /\ assign_ok FPortOut (CU 2) (CU 3) = false.
 Proof. vm_compute. repeat split. Qed.
 
 (** the join of Unsigned[2] and a run-time integer is Unsigned[2]: the integer branch is truncated *)
@@ -464,3 +465,19 @@ Proof. vm_compute. repeat split. Qed.
 Example ex_join : join (CBV 4) (CS 4) = Some (CBV 4) /\ dep_join (CBV 4) (CBV 4) = false /\ dep_join (CS 4) (CBV 4) = false /\
   join CBool CBit = Some CBit.
 Proof. vm_compute. repeat split. Qed.
+
+(** with the proposed declaration repair the equal-width reinterpretation is rejected, the documented pairs stay *)
+Lemma declfix_rejects_reinterpretation n m :
+  decl_ok_fixed (CS n) (CU m) = false /\ decl_ok_fixed (CU n) (CS n) = false.
+Proof. unfold decl_ok_fixed. cbn [is_runtime vec_of trial]. rewrite N.ltb_irrefl. split; reflexivity. Qed.
+
+Lemma declfix_keeps_documented src tgt :
+  is_target tgt = true -> dep_decl src tgt = false -> decl_ok_fixed src tgt = doc_ok src tgt.
+Proof.
+  intros Ht Hd. pose proof (matrix_decl src tgt Ht Hd) as E. unfold decl_ok in E. unfold decl_ok_fixed.
+  destruct (is_runtime src) eqn:R; [|exact E].
+  destruct (vec_of src) as [[ks n]|] eqn:Vs; [|exact E]. destruct (vec_of tgt) as [[kt m]|] eqn:Vt; [|exact E].
+  destruct (trial src tgt) eqn:T; [exact E|]. cbn [andb]. clear E.
+  destruct src; try discriminate Vs; destruct tgt; try discriminate Vt; cbn [trial doc_ok] in *;
+    try (symmetry; exact T); reflexivity.
+Qed.
